@@ -46,7 +46,7 @@ def _completed_dop(d: Dict[str, Any], v: Any) -> Any:
         return None
     if d["k"] == "struct":
         return completed(d["ps"], v)
-    if d["k"] == "simple":
+    if d["k"] in ("simple", "dtc"):
         return v
     if d["k"] == "mux":
         cs = list(d["cases"]) + ([d["dflt"]] if d["hasdflt"] else [])
@@ -79,7 +79,7 @@ def has_kind(ps: List[Dict[str, Any]], kinds: Tuple[str, ...]) -> bool:
         if p["k"] in kinds or p["dop"].get("k") in kinds:
             return True
         d = p["dop"]
-        while d.get("k") not in (None, "none", "simple"):
+        while d.get("k") not in (None, "none", "simple", "dtc"):
             if d["k"] == "struct":
                 if has_kind(d["ps"], kinds):
                     return True
